@@ -8,6 +8,7 @@ package v2proto
 
 import (
 	"context"
+	"encoding/hex"
 	"fmt"
 	"strconv"
 	"strings"
@@ -212,7 +213,11 @@ func (r *real) ExecHint(line string) (out string, twinLine string) {
 				}
 			}
 		}
-		return fmt.Sprintf("res requeue=%s err=%s effects=%d att=%d %s", res.Requeue, errS, res.Effects, res.Attempts, s.State()), twinLine
+		doc := ""
+		if res.Doc != nil {
+			doc = " doc=" + hex.EncodeToString(res.Doc)
+		}
+		return fmt.Sprintf("res requeue=%s err=%s effects=%d att=%d%s %s", res.Requeue, errS, res.Effects, res.Attempts, doc, s.State()), twinLine
 	case "v2.state":
 		return s.State(), line
 	case "v2.drain":
